@@ -2628,7 +2628,7 @@ class UTPM(Ring, RawAlgorithmsMixIn):
             out = (x.zeros_like(),)
 
         xbar, = out
-        Nx = xbar.shape[0]
+        Nx = min(xbar.shape)
         for nx in range(Nx):
             xbar[nx,nx] += ybar
 
